@@ -181,7 +181,11 @@ def job(j):
     pool = [t for t in SAMPLES if encodable(t, cs)]
     for i in range(6):
         texts = [rng.choice(pool) for _ in range(rng.randrange(1, 5))]
-        fail, n = check_roundtrip(cs, texts) if kind == 'roundtrip' else failing_calls(rng, cs, texts)
+        try:
+            fail, n = check_roundtrip(cs, texts) if kind == 'roundtrip' else failing_calls(rng, cs, texts)
+        except Exception as e:  # noqa: BLE001
+            reset_charset()
+            fail, n = ('raises:' + type(e).__name__, 'saving / loading a file with texts %r under charset %s raised %r' % (texts, cs, e)), 1
         rec['n'] += n
         rec['hashes'].add(hash((kind, cs, tuple(texts))))
         rec['dist'][kind + ':' + cs] = rec['dist'].get(kind + ':' + cs, 0) + n
